@@ -74,7 +74,10 @@ def scale_spec(rng, kind=None):
     etn (n equal steps, octave ratio 2), ration (n equal steps of an octave
     ratio != 2, e.g. Bohlen-Pierce: 13 steps of 3:1)."""
     kind = kind or rng.choice(['et12-explicit', 'nonet12', 'ratio12', 'etn',
-                               'ration'])
+                               'ration', 'shifted-degrees', 'shifted-tuning',
+                               'shifted-both'])
+    if kind.startswith('shifted-'):
+        return shifted_scale_spec(rng, kind)
     if kind == 'et12-explicit':
         return {'kind': kind, 'degrees': rng.choice(DEGREE_SETS), 'tuning': None,
                 'ratio': 2.0}
@@ -103,6 +106,90 @@ def scale_spec(rng, kind=None):
                 'tuning': [i * 12.0 * math.log2(ratio) / n for i in range(n)]}
     return {'kind': kind, 'degrees': [0] + degs,
             'tuning': [i * 12.0 / n for i in range(n)], 'ratio': 2.0}
+
+
+SHIFTED_DEGREE_SETS = [[2, 4, 5, 7, 9, 11], [1, 3, 6, 8, 10], [3, 5, 7, 10],
+                       [5, 7, 9, 11], [1, 2, 4, 6, 7, 9, 11], [7, 9, 11], [11],
+                       [4, 7, 11]]
+
+
+def shifted_scale_spec(rng, kind=None):
+    """Round 10: scales whose degree 0 is NOT key 0 of the tuning, and tunings
+    whose first pitch is NOT 0 semitones - the default degree (0) then is not
+    the default note: an event / Pbind that gives nothing but such a scale
+    plays another pitch than one without pitch keys (Scale help: degrees are
+    indices into the tuning, any ascending subset; Tuning help: any list of
+    semitone values).
+    kinds: shifted-degrees (degrees start above 0; default 12-ET tuning,
+    a 12 value tuning or n equal steps), shifted-tuning (degrees from 0, the
+    tuning's first value is not 0; octave ratio 2 or not), shifted-both."""
+    import math
+    kind = kind or rng.choice(['shifted-degrees', 'shifted-tuning',
+                               'shifted-both'])
+    if kind == 'shifted-degrees':
+        r = rng.random()
+        if r < 0.5:
+            return {'kind': kind, 'degrees': rng.choice(SHIFTED_DEGREE_SETS),
+                    'tuning': None, 'ratio': 2.0}
+        if r < 0.75:
+            t = rng.choice([JUST, PYTHAGOREAN, MEAN4])
+            return {'kind': kind, 'degrees': rng.choice(SHIFTED_DEGREE_SETS),
+                    'tuning': [float(x) for x in t], 'ratio': 2.0}
+        n = rng.choice([5, 7, 10, 17, 19, 24])
+        size = rng.randint(1, min(n - 1, 7))
+        degs = sorted(rng.sample(range(1, n), size))
+        return {'kind': kind, 'degrees': degs,
+                'tuning': [i * 12.0 / n for i in range(n)], 'ratio': 2.0}
+    first = rng.choice([0.5, -0.25, 0.3, 1.0, 2.0, -1.5, 0.0625])
+    ratio = rng.choice([2.0, 2.0, 2.0, 3.0, 1.5])
+    base = rng.choice([None, JUST, PYTHAGOREAN])
+    if base is None or ratio != 2.0:
+        step = math.log2(ratio)
+        t = [first + i * step for i in range(12)]
+    else:
+        t = [first + x for x in base]
+    degs = rng.choice(DEGREE_SETS if kind == 'shifted-tuning'
+                      else SHIFTED_DEGREE_SETS)
+    return {'kind': kind, 'degrees': degs, 'tuning': t, 'ratio': ratio}
+
+
+# the input keys of the pitch chain (Pattern Guide 07) and values that are
+# NOT the key's neutral value: given alone, each one moves the pitch
+PITCH_INPUTS = {
+    'degree': [1, 2, 4, -1, -3, 7, 9, 2.0],
+    'mtranspose': [1, 2, -1, -2, 3, 7],
+    'gtranspose': [1, -1, 0.5, 2, 7, -3],
+    'root': [1, 2, -2, 2.5, 5],
+    'octave': [3, 4, 6, 4.5, 7, 2],
+    'ctranspose': [1, -1, 0.25, -0.5, 7, 12, -12],
+    'harmonic': [2, 3, 0.5, 1.5, 4],
+    'detune': [3, -5, 0.7, 12.5, -0.5],
+    'note': [1, 2, -5, 7, 3.5, 12, 14.25],
+    'midinote': [61, 48.5, 57, 64.25, 69, 72, 36],
+    'freq': [440, 110.5, 333.3, 1234.5, 55],
+    'scale': None,
+}
+
+
+def minimal_pitch_keys(rng, size=None):
+    """Round 10: the pitch keys of an event that gives ONE input key of the
+    pitch chain (55 %), two (35 %) or three - every key of PITCH_INPUTS alone
+    and in every small combination, each with a value that moves the pitch,
+    scales of every kind (70 % of them shifted ones: degree 0 is not key 0).
+    Kept out as everywhere: harmonic with an explicit freq, ctranspose with a
+    fractional degree (none here)."""
+    size = size or rng.choice([1] * 11 + [2] * 7 + [3] * 2)
+    keys = rng.sample(sorted(PITCH_INPUTS), size)
+    if 'freq' in keys and 'harmonic' in keys:
+        keys.remove('harmonic')
+    ev = {}
+    for k in keys:
+        if k == 'scale':
+            ev[k] = (shifted_scale_spec(rng) if rng.random() < 0.7
+                     else scale_spec(rng))
+        else:
+            ev[k] = _numv(rng, PITCH_INPUTS[k], 0.3)
+    return ev
 
 
 # ---------------------------------------------------------------- event specs
@@ -242,9 +329,12 @@ def control_keys(rng, inst):
     return ev
 
 
-def event_spec(rng, inst, tag, offgrid=False):
+def event_spec(rng, inst, tag, offgrid=False, minimal=False):
     ev = {'instrument': inst['name'], 'tag': tag}
-    ev.update(pitch_keys(rng, scale_p=0.3))
+    # (round 10, minimal: one to three input keys of the pitch chain and
+    # nothing else of it - see minimal_pitch_keys)
+    ev.update(minimal_pitch_keys(rng) if minimal
+              else pitch_keys(rng, scale_p=0.3))
     ev.update(amp_keys(rng))
     ev.update(dur_keys(rng, offgrid))
     ev.update(server_keys(rng, inst))
@@ -500,8 +590,17 @@ def play_program(rng, insts, tags):
     steps = []
     for _ in range(rng.randint(1, 5)):
         inst = rng.choice(insts)
-        ev = event_spec(rng, inst, next(tags), offgrid)
-        if rng.random() < 0.03:
+        minimal = rng.random() < 0.2
+        if minimal:
+            # round 10: an event whose pitch keys are a minimal key set, on
+            # an instrument that has a freq control (its /s_new shows the
+            # detuned freq of the chain)
+            inst = rng.choice([x for x in insts if any(
+                c[0] == 'freq' for c in x['controls'])])
+        ev = event_spec(rng, inst, next(tags), offgrid, minimal)
+        if minimal:
+            pass
+        elif rng.random() < 0.03:
             # a definition the SynthDescLib does not know (sent, not added):
             # Event help: freq, amp, pan, out are sent, a gate is assumed
             ev['instrument'] = NODESC
@@ -512,6 +611,8 @@ def play_program(rng, insts, tags):
         how = rng.choice(['event.play', 'play(dict)', 'play(**kw)',
                           'play(dict,**kw)'])
         steps.append({'wait': wait, 'event': ev, 'how': how})
+        if minimal:
+            steps[-1]['minimal'] = sorted(k for k in ev if k in PITCH_INPUTS)
     return {'where': where, 'latency': latency, 'steps': steps,
             'offgrid': offgrid}
 
@@ -913,6 +1014,99 @@ def chain_mono_case(rng, insts, tags):
             'start': rng.choice([0.25, 1, 2.5]), 'proto': None}
 
 
+def pitch_alone_case(rng, insts, tags):
+    """Round 10: a Pbind / Pmono line whose ONLY pitch keys are one or two
+    input keys of the pitch chain (every key of PITCH_INPUTS, `scale` columns
+    of scale objects included - constant or one scale per event, most of them
+    shifted: degree 0 is not key 0), on an instrument with a freq control;
+    alone, beside another line in a Ppar, below a Pchain that adds nothing of
+    the pitch chain, or with the pitch column in the LEFT operand of a
+    Pchain."""
+    freq_insts = [x for x in insts if any(c[0] == 'freq'
+                                          for c in x['controls'])]
+    inst = rng.choice(freq_insts)
+    mono = rng.random() < 0.2
+    pb = pbind_spec(rng, [inst], tags, False, rests=False, mono=mono,
+                    pitch=False)
+    m = pb[1]
+    if not mono:
+        m['instrument'] = inst['name']
+    n = len(me.values(m['tag']))
+    keys = rng.sample(sorted(PITCH_INPUTS), rng.choice([1, 1, 1, 2, 2, 3]))
+    if 'freq' in keys and 'harmonic' in keys:
+        keys.remove('harmonic')
+    cols = {}
+    for k in keys:
+        if k == 'scale':
+            choices = [shifted_scale_spec(rng) if rng.random() < 0.7
+                       else scale_spec(rng) for _ in range(3)]
+        else:
+            choices = PITCH_INPUTS[k]
+        cols[k] = _column(rng, n, choices, 0.4)
+    shape = rng.choice(['plain', 'plain', 'ppar', 'pchain-right',
+                        'pchain-left'])
+    if mono or shape == 'pchain-left' and 'delta' in m:
+        shape = 'plain' if shape.startswith('pchain') else shape
+    if shape == 'pchain-left':
+        leaf = ['pchain', ['pbind', cols], pb]
+    else:
+        m.update(cols)
+        leaf = ['pmono', inst['name'], m] if mono else pb
+    pat = leaf
+    if shape == 'ppar':
+        pat = ['ppar', [leaf, pbind_spec(rng, insts, tags, False)]]
+    elif shape == 'pchain-right':
+        pat = ['pchain', ['pbind', {'pan': rng.choice([-1, 0.25, 1])}], leaf]
+    return {'pattern': pat, 'special': 'pitch-alone', 'alone': sorted(keys),
+            'shape': shape, 'offgrid': False,
+            'latency': rng.choice([0, 0.05, 0.25]),
+            'where': rng.choice(['main', 'routine-system', 'routine-tempo']),
+            'clock': rng.choice(['default', 'system', 'tempo']),
+            'start': rng.choice([0.25, 1, 2.5]), 'proto': None}
+
+
+def chain_in_sequence_case(rng, insts, tags):
+    """Round 10: a Pchain inside a sequence (Pseq part / Pn body) that ENDS BY
+    ITS LEFT OPERAND (the left operand has fewer rows than the right one; a
+    chain asks its operands from right to left, so the event of the row at
+    which it ends was begun by the right operand) followed by another
+    pattern / its own repetition; a quarter of the cases end by the right
+    operand (the usual way).  Every part of a sequence is a fresh embedding
+    (Pseq / Pn help): the pattern that follows starts from the player's
+    prototype event."""
+    while True:
+        right = pbind_spec(rng, insts, tags, False, rests=False)
+        n = len(me.values(right[1]['tag']))
+        if n >= 2:
+            break
+    k = rng.randint(1, n - 1) if rng.random() < 0.75 else n + rng.randint(0, 1)
+    m = {}
+    for name in rng.sample(['pan', 'foo', 'bar', 'cutoff', 'zork', 'legato'],
+                           rng.randint(1, 2)):
+        choices = [0.5, 1, 0.25] if name == 'legato' else [-1, 0, 1, 0.25, 2]
+        m[name] = rng.choice(choices)
+    first = rng.choice(sorted(m))
+    m[first] = _as_pattern(rng, [rng.choice(
+        [0.5, 1, 0.25] if first == 'legato' else [-1, 0.5, 1, 0.25])
+        for _ in range(k)])
+    chain = ['pchain', ['pbind', m], right]
+    shape = rng.choice(['pseq', 'pseq', 'pn', 'pseq3'])
+    nxt = lambda: pbind_spec(rng, insts, tags, False, rests=False)
+    if shape == 'pseq':
+        pat = ['pseq', [chain, nxt()]]
+    elif shape == 'pn':
+        pat = ['pn', rng.randint(2, 3), chain]
+    else:
+        pat = ['pseq', [nxt(), chain, nxt()]]
+    return {'pattern': pat, 'special': 'chain-in-sequence',
+            'ends_by': 'left-operand' if k < n else 'right-operand',
+            'shape': shape, 'offgrid': False,
+            'latency': rng.choice([0, 0.05, 0.25]),
+            'where': rng.choice(['main', 'routine-system', 'routine-tempo']),
+            'clock': rng.choice(['default', 'system', 'tempo']),
+            'start': rng.choice([0.25, 1, 2.5]), 'proto': None}
+
+
 def special_case(rng, insts, tags):
     """Event forms that end or suspend a stream: the event type 'rest', a None
     delta (ends the player after the event), an infinite dur (the event is
@@ -1136,14 +1330,27 @@ def key_set_variant(case, how):
 
 
 def timeline_case(rng, insts, tags):
-    return with_key_sets(rng, _timeline_case(rng, insts, tags))
+    case = _timeline_case(rng, insts, tags)
+    if case.get('form') == 'derive':
+        return case
+    return with_key_sets(rng, case)
 
 
 def _timeline_case(rng, insts, tags):
     r = rng.random()
-    if r < 0.07:
+    if r < 0.008:
+        return chain_in_sequence_case(rng, insts, tags)
+    if r < 0.04:
+        # round 10: lines whose only pitch keys are 1-3 input keys of the chain
+        return pitch_alone_case(rng, insts, tags)
+    if r < 0.11:
         return special_case(rng, insts, tags)
-    if r < 0.35:
+    if r < 0.20:
+        # round 10: histories on two pattern objects, one derived from the
+        # other (vf/c14_derive.py)
+        from vf import c14_derive
+        return c14_derive.derive_case(rng, insts, tags)
+    if r < 0.46:
         return reuse_case(rng, insts, tags)
     offgrid = rng.random() < 0.25
     comp = composition(rng, insts, tags, offgrid)
